@@ -181,6 +181,22 @@ func structuralCandidates(s *spec.Spec) []*spec.Spec {
 				out = append(out, c)
 			}
 		}
+		for i := range s.History {
+			a := s.History[i].Acts
+			for k := range a {
+				if len(a) == 1 {
+					break
+				}
+				c := clone(s)
+				c.History[i].Acts = append(c.History[i].Acts[:k:k], c.History[i].Acts[k+1:]...)
+				out = append(out, c)
+			}
+			if s.History[i].Extra > 0 {
+				c := clone(s)
+				c.History[i].Extra = 0
+				out = append(out, c)
+			}
+		}
 	}
 	return out
 }
